@@ -96,4 +96,20 @@ def c06(ctx):
                       ASSUME_LIFT + ["the four atom pairings are computed with the suite's own Pair; bilinearity is what relates every other pairing to them"], exhaustive=False)
 
 
-PROPS = {"C06": c06, "C01": c01, "C02": c02, "C03": c03, "C05": c05}
+def c17(ctx):
+    q = ctx.quick
+    ctx.tlc("PickEmbed", cfg(constants={"L": 3 if q else 4}, invariants=["Deterministic"], properties=["StreamDiscipline"], view="View"), name="C17_mc")
+    out = os.path.join(ctx.tmp, "C17_bfs.ndjson")
+    ctx.tlc("PickEmbed", cfg(constants={"L": 3}, invariants=["Emit"]), name="C17_gen_bfs", collect=out)
+    ctx.run_vh("pickembed", ["-in", out, "-max", 1500 if q else 0, "-maxslow", 150 if q else 3000])
+    sim = os.path.join(ctx.tmp, "C17_sim.ndjson")
+    ctx.tlc("PickEmbed", cfg(constants={"L": 7}, invariants=["Emit"]), name="C17_gen_sim", collect=sim,
+            simulate="num=%d" % (20 if q else 400), depth=7, workers=1)
+    ctx.run_vh("pickembed", ["-in", sim, "-max", 0 if q else 6000, "-maxslow", 100 if q else 1500])
+    ctx.run_vh("h2c", [])
+    return ctx.finish("model_checking",
+                      "behaviour = sequence of NewStream/CopyStream/Pick/Embed/Hash/Codec over 2 stream handles (seeded XOF; adversarial all-00 / all-ff prefixes forcing retries) and 2 point registers, data lengths 0..EmbedLen+8 x contents, messages of length 0..300 x tags (exhaustive to 2 steps, simulated to 6) x 21 group instances (capability matrix); after each producing step: q*P = O on the canonical route, Data() returns the stored bytes (also after encode/decode), relation to the other register (equal / differ) as the model predicts; plus Data() range check on 400 random members per embedding group and RFC 9380 vectors",
+                      ["collision resistance: 'differ' verdicts assume no accidental collision", "the length-field layout per group (harness table transcribed from Embed) and RFC 9380 vectors embedded in the harness are trusted"], exhaustive=False)
+
+
+PROPS = {"C17": c17, "C06": c06, "C01": c01, "C02": c02, "C03": c03, "C05": c05}
